@@ -12,6 +12,9 @@
 // fixes replaced by an item of each other major type (and, as its own class,
 // by null), chain points of length 1, 3, 4 or with a text hash, a tip with an
 // extra element.
+// (c) The same round trip under concurrency (concurrent.go): results equal the
+// sequentially computed references while other goroutines encode / decode
+// other messages, and bytes / messages handed out earlier stay unchanged.
 package c04
 
 import (
@@ -33,7 +36,8 @@ func init() {
 		ID:    "C04",
 		Level: "exploration",
 		Rule: "table of every public NewMsg* constructor (15 protocol packages, chain-sync decoded in both NtN and NtC mode); per constructor 20 (quick) / 2000 (thorough) PRNG field-value tuples incl. integer boundaries, origin / slot+hash points, nil and empty blobs, nested raw CBOR; every valid encoding is decoded back and, for the first 6 (quick) / 16 (thorough) tuples of a constructor, all its CDDL-forbidden shape mutants are decoded too. " +
-			"Non-trivial: a round trip that decoded (distinct by constructor and encoded bytes) or a mutant that was judged (distinct by constructor, mutant class and bytes).",
+			"Concurrent phase: per constructor 16 instances with payload sizes over the buffer-growth boundaries (0, 23/24, 255/256, 65535/65536) and block-sized blobs (20-33 kB, 100 kB), references computed sequentially; groups of 2, 4 and 16 goroutines (GOMAXPROCS 2, 4, 4, all) encode and decode different instances of the same type in loops of a fixed length (96 / 1200 iterations, fewer for block-sized messages by a byte budget), each result compared with its reference at once, and retained cbor.Encode / MarshalCBOR outputs and decoded messages compared again after the group has finished; two groups mix all message types; a sequential pass checks that a MarshalCBOR output survives later MarshalCBOR calls. " +
+			"Non-trivial: a round trip that decoded (distinct by constructor and encoded bytes), a mutant that was judged (distinct by constructor, mutant class and bytes), or a concurrent group with at least one completed round trip (distinct by constructor and group).",
 		MinNontrivial: 1500,
 		Assumptions: []string{
 			"the per-message field kinds in table_*.go transcribe the CDDL of the Ouroboros network specification / CIP-0137; fields the CDDL leaves open (header, block, tx, txId, query, result, reject reason, version data) are never type-mutated",
